@@ -23,7 +23,8 @@ Inductive skind :=
 | KAccess (map : string) (want : slock) (write : bool)      (* access to a guarded map; want = its designated mutex *)
 | KField (f : string) (r : string) (write : bool)           (* fidRef.opened *)
 | KWait (what : string)                                     (* channel receive / WaitGroup.Wait *)
-| KDispatch.                                                (* handler.handle(cs) *)
+| KDispatch                                                 (* handler.handle(cs) *)
+| KNew (file node : snode) (parent : option snode).         (* fidRef{file:, pathNode:, parent:}: node of the File, node assigned, node of the parent ref *)
 
 (** one step of the plan that leads to a site *)
 Inductive pact :=
